@@ -438,6 +438,22 @@ fn delivery_time(l: &RunLog, k: usize) -> Option<u64> {
 ///  (c) a shutdown (or dropping the last half) on an idle connection emits ST_FIN at the same instant.
 pub fn promptness(scn: &Scenario, l: &RunLog) -> Vec<Finding> {
     let mut v = vec![];
+    // nothing is lost on this network: a data segment or FIN that goes out twice means that some
+    // retransmission timer decided the pace (e.g. because an acknowledgement was held back too long)
+    {
+        let mut seen: std::collections::BTreeSet<(bool, u8, u16)> = Default::default();
+        for w in l.wire.iter().filter(|w| !w.injected && !w.rejected && (w.ptype == 0 || w.ptype == 1)) {
+            if !seen.insert((w.from_a, w.ptype, w.seq)) {
+                v.push(f(
+                    "C02",
+                    "promptness",
+                    "promptness/retransmission-on-a-loss-free-network",
+                    format!("loss-free run: {} with sequence number {} from {} was put on the wire a second time at {} us: a retransmission timer fired although nothing was lost", if w.ptype == 0 { "ST_DATA" } else { "ST_FIN" }, w.seq, if w.from_a { "A" } else { "B" }, w.t_us),
+                ));
+                break;
+            }
+        }
+    }
     let rtt = 2 * scn.latency_us;
     let bound = rtt + 40_000 + 10; // + drain slack
     // timeline of (t, kind)
